@@ -69,26 +69,31 @@ def s_ds(tier, seed, out):
 # S-script: generic scanner code driven by the scripted interpreter
 
 # token spec: (text, lower, nan, gap_before)
-def _tk(text, nan=0, gap=0):
-    return (text, text, nan, gap)
+def _tk(text, nan=0, gap=0, dur=10):
+    return (text, text, nan, gap, dur)
 
 
 SCRIPT_ALPHA = [_tk("d5"), _tk("d3"), _tk("t2"), _tk("o3"), _tk("z"), _tk("h"), _tk("and"), _tk("pt"), _tk("lk"),
                 _tk("w"), _tk(","), _tk("."), _tk(" "), _tk("-"),
                 _tk("d5", nan=1), _tk("w", nan=1), _tk("d5", gap=1), _tk("d3", gap=1), _tk("w", gap=1),
                 _tk("pt", gap=1), _tk("and", gap=1), _tk("o3", gap=1), _tk("z", gap=1), _tk(" . "),
-                _tk("cj"), _tk("cj", gap=1), _tk(" ", nan=1), _tk("-", nan=1)]
+                _tk("cj"), _tk("cj", gap=1), _tk(" ", nan=1), _tk("-", nan=1),
+                # slow words: they last longer than the pause threshold, so "separated from the previous token" differs from
+                # "separated from the token before the previous one"
+                _tk("and", dur=150), _tk("pt", dur=150), _tk("cj", dur=150), _tk("lk", dur=150)]
 
 
 def render_tokens(specs):
-    """tokens as protocol text; times: each token lasts 10, contiguous unless gap (then +200)."""
+    """tokens as protocol text; times: each token lasts `dur` (default 10), contiguous unless gap (then +200)."""
     t = 0
     parts = []
-    for (text, lower, nan, gap) in specs:
+    for sp in specs:
+        text, lower, nan, gap = sp[:4]
+        dur = sp[4] if len(sp) > 4 else 10
         if gap:
             t += 200
-        parts.append("%s,%s,%d,%d,%d" % (esc(text), esc(lower), nan, t, t + 10))
-        t += 10
+        parts.append("%s,%s,%d,%d,%d" % (esc(text), esc(lower), nan, t, t + dur))
+        t += dur
     return " ".join(parts)
 
 
@@ -138,14 +143,17 @@ def s_tok(tier, seed, out):
 # ------------------------------------------------------------------------------------------------
 # word banks for the concrete languages
 
+# ordinary (non-number) context words; the tail of each list holds awkward ones: digit-leading words (letters after a
+# digit), and compounds made only of zero words (the interpreter's sub-group is then all leading zeros, empty buffer)
+_ODD = ["2nd", "3D", "4x4", "5kg", "10h"]
 ORDINARY = {
-    "en": ["cat", "dogs", "the", "house", "went", "Oscar", "s", "c"],
-    "fr": ["chat", "maison", "le", "la", "du", "un", "l'", "numéro", "avoir", "ami", "vélo"],
-    "es": ["gato", "casa", "el", "la", "tengo", "años"],
-    "pt": ["gato", "casa", "tenho", "anos", "os"],
-    "it": ["gatto", "casa", "il", "ho", "anni"],
-    "de": ["Katze", "Haus", "der", "ich", "habe", "eine", "Spur"],
-    "nl": ["kat", "huis", "de", "ik", "heb"],
+    "en": ["cat", "dogs", "the", "house", "went", "Oscar", "s", "c"] + _ODD + ["zero-zero", "o-o", "nought-zero"],
+    "fr": ["chat", "maison", "le", "la", "du", "un", "l'", "numéro", "avoir", "ami", "vélo"] + _ODD + ["zéro-zéro"],
+    "es": ["gato", "casa", "el", "la", "tengo", "años"] + _ODD + ["cero-cero"],
+    "pt": ["gato", "casa", "tenho", "anos", "os"] + _ODD + ["zero-zero"],
+    "it": ["gatto", "casa", "il", "ho", "anni"] + _ODD + ["zerozero", "zero-zero"],
+    "de": ["Katze", "Haus", "der", "ich", "habe", "eine", "Spur"] + _ODD + ["nullundnull", "nullnull"],
+    "nl": ["kat", "huis", "de", "ik", "heb"] + _ODD + ["nulennul", "nulnul"],
 }
 SEPS = [" ", " ", " ", ", ", ". ", "; ", ": ", " - ", "-", " ", "  ", "\t", " . ", "! ", "? ", " (", ") ", "\n", "."]
 DECSEP = {"en": "point", "fr": "virgule", "es": "coma", "pt": "vírgula", "it": "virgola", "de": "Komma", "nl": "komma"}
@@ -253,7 +261,7 @@ def s_scan(lang, tier, seed, out, prefix="", phrases=None):
             if rng.chance(1, 5):
                 specs.append(_tk(rng.choice([" ", ",", ".", "-", ";", " . "]), nan=1 if rng.chance(1, 10) else 0, gap=1 if rng.chance(1, 12) else 0))
             text = recase(rng, w)
-            specs.append((text, text.lower(), 1 if rng.chance(1, 12) else 0, 1 if rng.chance(1, 8) else 0))
+            specs.append((text, text.lower(), 1 if rng.chance(1, 12) else 0, 1 if rng.chance(1, 8) else 0, 150 if rng.chance(1, 6) else 10))
         out.write("scan\t%s\t%s\t%s\n" % (code, thr_bits(rng.choice(THRS)), render_tokens(specs)))
         n += 1
     return n
